@@ -9,6 +9,7 @@ ASSUME ndJsonSerialize("replies.ndjson", SetToSeq(ReplyScenarios))
 ASSUME PrintT(<<"EMITTED", Cardinality(Alphabet) + Cardinality(Alphabet2), Cardinality(SeqScenarios) + Cardinality(Singles2),
                 Cardinality(ReplyScenarios)>>)
 
-EInit == n = 0 /\ pos = 0 /\ eof = FALSE /\ served = "running" /\ ncalls = 0 /\ nret = 0 /\ cancelled = FALSE
+EInit == /\ n = 0 /\ cfg = "listen" /\ pos = 0 /\ eof = FALSE /\ served = "running" /\ ncalls = 0 /\ nret = 0
+         /\ loc = "clean" /\ cancelled = FALSE
 ENext == UNCHANGED vars
 =============================================================================
